@@ -76,7 +76,10 @@ def worker_env(devices: int = 1, extra: dict | None = None) -> dict:
     env[GUARD] = "1"
     env["XLA_FLAGS"] = (
         f"--xla_force_host_platform_device_count={devices} "
-        "--xla_cpu_multi_thread_eigen=false intra_op_parallelism_threads=1"
+        "--xla_cpu_multi_thread_eigen=false intra_op_parallelism_threads=1 "
+        # in-process collectives abort the whole worker when a rendezvous takes longer than 40 s (the default);
+        # on a loaded machine the emulated device threads can starve that long - an environment effect, not a verdict
+        "--xla_cpu_collective_call_terminate_timeout_seconds=3600 --xla_cpu_collective_timeout_seconds=3600"
     )
     env.pop("JAX_ENABLE_X64", None)
     if extra:
@@ -150,8 +153,10 @@ def _run_shard(prop, cases, devices, scratch, idx, timeout, extra_env):
 
 
 def run_cases(prop: str, cases: list, scratch: Path, shard_timeout: float,
-              target_shards: int | None = None, extra_env: dict | None = None) -> list:
-    """Split cases into shards (grouped by device count) and run them on all cores."""
+              target_shards: int | None = None, extra_env: dict | None = None, _retry: bool = False) -> list:
+    """Split cases into shards (grouped by device count) and run them on all cores.  Cases whose worker died
+    without writing a record (a crash takes the rest of its shard with it) are run once more, one case per
+    worker, so that an environment hiccup does not decide anything and a reproducible crash is pinned to its case."""
     # shard key: (device count, 64-bit mode left OFF in the worker).  Cases marked no_x64 run in workers that do
     # not enable 64-bit mode first - the state a problem built before its solver (README order) is constructed in
     by_dev: dict = {}
@@ -174,6 +179,15 @@ def run_cases(prop: str, cases: list, scratch: Path, shard_timeout: float,
         for f in futs:
             recs, _ = f.result()
             records.extend(recs)
+    lost = {r["case_id"] for r in records if r.get("status") == "error" and "produced no record" in str(r.get("detail", ""))}
+    if lost and not _retry:
+        again = [c for c in cases if c["case_id"] in lost]
+        sub = Path(scratch) / "retry"
+        sub.mkdir(exist_ok=True)
+        second = run_cases(prop, again, sub, shard_timeout, target_shards=len(again), extra_env=extra_env, _retry=True)
+        for r in second:
+            r["retried_after_worker_crash"] = True
+        records = [r for r in records if r["case_id"] not in lost] + second
     return records
 
 
@@ -217,6 +231,7 @@ def finish(prop: str, mod, tier: str, seed: int, cases: list, records: list, t0:
         "skipped_by_reason": dict(skips),
         "known_finding_hits": dict(known_hits),
         "harness_errors": len(errs),
+        "cases_rerun_after_worker_crash": sum(1 for r in records if r.get("retried_after_worker_crash")),
         "class_histogram_top": [[json.loads(k), v] for k, v in classes.most_common(12)],
     }
     ts = sorted(float(r.get("t", 0.0)) for r in records)
